@@ -200,12 +200,17 @@ impl ReadBufPool {
         // NOTE: initially poisoned in ReadBufPool::new.
         asan::unpoison(ring_buf);
         log::trace!(buffer_group = self.id, buffer = buf_id, addr:? = ptr; "reregistering buffer");
-        ring_buf.write(libc::io_uring_buf {
-            addr: ptr.cast::<u8>().as_ptr().addr() as u64,
-            len: self.buf_size,
-            bid: buf_id,
-            resv: 0,
-        });
+        // NOTE: we can't write the `resv` field here. For the first buffer in
+        // the ring it overlaps with the ring tail, which the kernel can read at
+        // any time. Writing zero to it would, until we write the new tail
+        // below, tell the kernel that all buffers in the ring, including the
+        // ones currently in use, are available.
+        let ring_buf_ptr = ring_buf.as_mut_ptr();
+        unsafe {
+            (&raw mut (*ring_buf_ptr).addr).write(ptr.cast::<u8>().as_ptr().addr() as u64);
+            (&raw mut (*ring_buf_ptr).len).write(self.buf_size);
+            (&raw mut (*ring_buf_ptr).bid).write(buf_id);
+        }
         // NOTE: unpoisoned above.
         asan::poison_region(
             ring_buf.as_ptr().cast(),
